@@ -33,6 +33,8 @@ type GenOpts struct {
 	Completions    bool // pods complete / are deleted between cycles
 	MinCycles      int
 	MaxCycles      int
+	Twins          bool     // duplicate pending workloads with another age / priority (C16)
+	NoStaleGrace   bool
 	Actions        []string // nil = all
 	FixedConfig    bool
 }
@@ -512,6 +514,39 @@ func GenScript(t *rapid.T, prop, profile string, o GenOpts) *Script {
 	s.World.Workloads = genWorkloads(t, o, leaves, s.World.Nodes, s.World.PriorityClasses)
 	if o.Running {
 		placeInitial(t, o, &s.World)
+	}
+	if o.Twins {
+		n := len(s.World.Workloads)
+		for i := 0; i < n && len(s.World.Workloads) < 14; i++ {
+			w := s.World.Workloads[i]
+			allPending := true
+			for _, p := range w.Pods {
+				if p.State != "pending" {
+					allPending = false
+				}
+			}
+			if !allPending || !chance(t, "twin", 60) {
+				continue
+			}
+			tw := w
+			tw.Name = fmt.Sprintf("%st", w.Name)
+			tw.Pods = nil
+			for j, p := range w.Pods {
+				p.Name = fmt.Sprintf("%s-p%d", tw.Name, j)
+				tw.Pods = append(tw.Pods, p)
+			}
+			tw.SubGroups = append([]SubGroupSpec(nil), w.SubGroups...)
+			if chance(t, "twinprio", 50) && len(s.World.PriorityClasses) > 0 {
+				// same preemptibility class, different priority
+				if w.Preemptibility == "" {
+					tw.Preemptibility, s.World.Workloads[i].Preemptibility = "preemptible", "preemptible"
+				}
+				tw.PriorityClass = pick(t, "twinpc", "train", "build", "inference", "low")
+			} else {
+				tw.AgeSec = int64(rapid.IntRange(1, 5000).Draw(t, "twinage"))
+			}
+			s.World.Workloads = append(s.World.Workloads, tw)
+		}
 	}
 	s.Ops = genOps(t, o, &s.World)
 	s.Faults, s.BindFail = genFaults(t, o, &s.World)
